@@ -1053,8 +1053,49 @@ def r7(k: Kit) -> None:
         if tbl_names and (hf.qual, 'self._p', False) not in rows:
             rows.append((hf.qual, 'self._p', False))
     rep.floor('C06.R7', 'group exchange request handlers', len(rows), 1)
+    # the RSA exchange: a second KEXRSA_PUBKEY must not replace the
+    # transient key the client already answered
+    if k.idx.has_func('kex_rsa._KexRSA._process_pubkey'):
+        rows.append(('kex_rsa._KexRSA._process_pubkey',
+                     'self._trans_key_data', False))
     before = len(rep.obligations)
     state_guards(k, 'C06.R7', rows)
+
+
+def r9(k: Kit) -> None:
+    """Nothing is dispatched once the connection was force-closed."""
+    rep = k.rep
+    rep.rule('C06.R9', 'SSHConnection._recv_data: the loop that parses and '
+             'dispatches buffered packets tests self._transport on every '
+             'round - a fatal packet (bad KEXINIT, DISCONNECT) force-closes '
+             'the connection, and packets that arrived in the same read '
+             'behind it must not be parsed and delivered to the owner '
+             'afterwards (debug_msg_received after connection teardown)')
+    fi = k.func(CONN + '_recv_data')
+    g = k.cfg(fi)
+    calls = [nd for nd, c in k.calls_named(fi, '_recv_handler', 'self')]
+    rep.floor('C06.R9', 'dispatch sites in _recv_data', len(calls), 1)
+    alive = atom_truthy_of('self._transport')
+    for nd in calls:
+        w = g.guarded_by(nd.id, alive)
+        # the guard must also hold on the way round the loop
+        back = None
+        for b, lab in g.succ[nd.id]:
+            if lab == 'exc':
+                continue
+            if b == nd.id:
+                back = [b]
+            elif g.path(b, nd.id, follow_exc=False) is not None:
+                back = back or g.guarded_by(nd.id, alive, start=b)
+        rep.check(w is None and back is None, 'C06.R9',
+                  key(fi, 'dispatch only while the transport is up'),
+                  'self._transport tested before every _recv_handler()',
+                  'one segment KEXINIT(no-such-kex) + DEBUG, or KEXINIT + '
+                  'DISCONNECT + DEBUG: the packet behind the fatal one is '
+                  'still parsed and debug_msg_received() fires on a '
+                  'connection whose transport is already gone',
+                  k.loc(fi, nd), g.describe_path(w or back) if (w or back)
+                  else None)
 
 
 def run(idx, rep, tier):
@@ -1069,6 +1110,7 @@ def run(idx, rep, tier):
     r5(k)
     r6(k)
     r7(k)
+    r9(k)
     rep.rule('C06.R8', 'server keyboard-interactive: INFO_RESPONSE is '
              'processed only while a challenge of ours is outstanding '
              '(_challenge_sent, set when INFO_REQUEST is sent and cleared '
@@ -1078,6 +1120,26 @@ def run(idx, rep, tier):
     state_guards(k, 'C06.R8', [
         ('auth._ServerKbdIntAuth._process_info_response',
          'self._challenge_sent', True)])
+    # one response per challenge: the flag is cleared in the handler itself,
+    # before the validation of the response is started
+    _fr = k.func('auth._ServerKbdIntAuth._process_info_response')
+    _gr = k.cfg(_fr)
+    _clr = [n.id for n, v in k.stores_to(_fr, 'self._challenge_sent')
+            if isinstance(v, ast.Constant) and v.value is False]
+    _val = [n for n, c in k.call_nodes(_fr, lambda c: is_call(
+        c, 'create_task') or is_call(c, '_validate_response'))]
+    rep.floor('C06.R8', 'validation starts', len(_val), 1)
+    for _n in _val:
+        _w = _gr.path(_gr.entry, _n.id, blocked_nodes=_clr)
+        rep.check(bool(_clr) and _w is None, 'C06.R8',
+                  key(_fr, 'challenge consumed before validation starts'),
+                  'self._challenge_sent = False on every path to the '
+                  'validation task',
+                  'the flag outlives the response it admitted: a second '
+                  'INFO_RESPONSE sent while validate_kbdint_response is '
+                  'still running is processed too, cancels and replaces the '
+                  'validation in flight - unlimited answers per challenge',
+                  k.loc(_fr, _n), _gr.describe_path(_w) if _w else None)
     _fi = k.func('auth._ServerKbdIntAuth._send_challenge')
     _g = k.cfg(_fi)
     _sends = [n for n, c in k.calls_named(_fi, 'send_packet', 'self')
@@ -1092,3 +1154,6 @@ def run(idx, rep, tier):
                   'every INFO_REQUEST sets _challenge_sent',
                   'a challenge is sent without being recorded: the genuine '
                   'response would be refused', k.loc(_fi, _n))
+    from .shared import share
+    from .c03 import r8 as _c03r8
+    share(k, 'C06.R10', 'every key exchange message is read to its end (= C03.R8): trailing bytes after KEX_ECDH_INIT are outside the exchange hash and must end the exchange', _c03r8)
